@@ -72,7 +72,7 @@ Theorem C17_no_entity_expansion_refuted :
 Proof. exact no_entity_expansion_refuted. Qed.
 
 (** non-vacuity of [safeb] as a hypothesis and necessity of its clauses: each flipped alone
-    admits a violating document (file read, expansion into text, DTD fetched, connection
+    lets a violating document through (file read, expansion into text, DTD fetched, connection
     attempted, deep nesting accepted, bomb not reported) *)
 Theorem C17_safe_clauses_needed :
   (p_events (parse (with_resolve RAll safe_cfg) wworld d_external) = [LoadFile 1] /\
